@@ -23,8 +23,10 @@ where
     F: FnOnce() -> T + Send + 'static,
     T: Send + 'static,
 {
+    // loom threads are coroutines with a small default stack: the encoders need more.
     crate::bases::verif_sync::thread::Builder::new()
         .name(name.into())
+        .stack_size(0x80000)
         .spawn(f)
         .expect("Success to launch thread")
 }
